@@ -8,7 +8,7 @@ prop(
     design_ref="DESIGN.md 2/C17",
     stages=[
         dict(run="^TestPropCommentRuns$",
-             quick=dict(checks=2400, shards=16, timeout=600, shrinktime="15s"),
+             quick=dict(checks=1440, shards=16, timeout=600, shrinktime="10s"),
              thorough=dict(checks=64000, shards=16, timeout=3600, shrinktime="60s")),
     ],
     rule="a case = platform (github cannot delete / gitlab can) x maxComments in {1,2,5,50} x showDuplicates x a generated pull request "
@@ -17,7 +17,9 @@ prop(
          "duplicated own comments; foreign positional, file-level and general comments; foreign replies; system notes; sometimes >1 API page) x "
          "2-6 runs whose report set evolves (add / drop / move / change text / unchanged / burst = more new problems than the budget on the "
          "first-sorting rule, so already commented problems come after the deferred ones; problems sharing check+lines; repeated issues; removed "
-         "rules reported with AnchorBefore; symlinked paths) + settle runs repeating the last report set. Reports are synthetic Problems on rules "
+         "rules reported with AnchorBefore; symlinked paths; problem summaries / details / diagnostic messages and rule lines carrying text a "
+         "platform or sanitiser could alter: @mentions and the PromQL @ modifier, HTML, markdown, #refs, table pipes, odd spacing, "
+         "non-ASCII, multi-line and very long text) + settle runs repeating the last report set. Reports are synthetic Problems on rules "
          "parsed by pint's parser from the generated files, confined to rules with at least one line in the diff, ModifiedLines computed as "
          "discovery.GitBranchFinder does. Each run is reporter.NewCommentReporter(NewGithubReporter|NewGitLabReporter).Submit. "
          "Non-trivial: >= 3 generated runs, more uncovered problems before run 0 than maxComments, and the population holds both a stale own "
